@@ -1,2 +1,5 @@
 -- Root of the `TrionModel` library: everything that `lake build` must check.
 import TrionModel.Props.C17
+import TrionModel.Props.C10
+import TrionModel.Props.C11
+import TrionModel.Props.C12
